@@ -3,7 +3,7 @@
    2. the word list: allocate returns the least free id, free clears one bit
    3. the handler map against the list of ids the peer has not yet answered (InvH)
    4. the connection: inductive invariant over every schedule (Inv), and the C02 statements *)
-From Coq Require Import Permutation.
+From Coq Require Import Permutation FMapPositive.
 From SV Require Import Base.Prelude Model.Streams.
 Open Scope N_scope.
 
@@ -293,6 +293,23 @@ Section AssocLemmas.
   Qed.
 End AssocLemmas.
 
+Section MapLemmas.
+  Context {V : Type}.
+  Implicit Types m : nmap V.
+  Lemma mkey_inj k k' : mkey k = mkey k' -> k = k'.
+  Proof. unfold mkey. intros H. apply (f_equal Pos.pred_N) in H. now rewrite !N.pos_pred_succ in H. Qed.
+  Lemma mget_mempty k : mget k (@mempty V) = None.
+  Proof. apply PositiveMap.gempty. Qed.
+  Lemma mget_mrem_same k m : mget k (mrem k m) = None.
+  Proof. apply PositiveMap.grs. Qed.
+  Lemma mget_mrem_other k k' m : k <> k' -> mget k (mrem k' m) = mget k m.
+  Proof. intros H. apply PositiveMap.gro. intros E. now apply H, mkey_inj. Qed.
+  Lemma mget_mput_same k v m : mget k (mput k v m) = Some v.
+  Proof. apply PositiveMap.gss. Qed.
+  Lemma mget_mput_other k k' v m : k <> k' -> mget k (mput k' v m) = mget k m.
+  Proof. intros H. apply PositiveMap.gso. intros E. now apply H, mkey_inj. Qed.
+End MapLemmas.
+
 Lemma smem_In x l : smem x l = true <-> In x l.
 Proof.
   unfold smem. rewrite existsb_exists. split.
@@ -322,14 +339,14 @@ Record InvH (m : hmap) (p : list (N * N)) : Prop := {
   i_wf : wf_words (hm_words m);
   i_used : forall sid, used (hm_words m) sid = true <-> In sid (sids p);
   i_sids : NoDup (sids p);
-  i_h : forall sid rid tok, aget sid (hm_handlers m) = Some (rid, tok) ->
-        tok = rid /\ In (sid, rid) p /\ aget rid (hm_r2s m) = Some sid /\
+  i_h : forall sid rid tok, mget sid (hm_handlers m) = Some (rid, tok) ->
+        tok = rid /\ In (sid, rid) p /\ mget rid (hm_r2s m) = Some sid /\
         smem sid (hm_orphans m) = false;
-  i_r : forall rid sid, aget rid (hm_r2s m) = Some sid ->
-        aget sid (hm_handlers m) = Some (rid, rid);
+  i_r : forall rid sid, mget rid (hm_r2s m) = Some sid ->
+        mget sid (hm_handlers m) = Some (rid, rid);
   i_o : forall sid, smem sid (hm_orphans m) = true -> In sid (sids p);
   i_p : forall sid rid, In (sid, rid) p ->
-        aget sid (hm_handlers m) = Some (rid, rid) \/ smem sid (hm_orphans m) = true
+        mget sid (hm_handlers m) = Some (rid, rid) \/ smem sid (hm_orphans m) = true
 }.
 
 Lemma In_sids sid rid p : In (sid, rid) p -> In sid (sids p).
@@ -369,14 +386,14 @@ Qed.
 
 Lemma InvH_new : InvH hm_new [].
 Proof.
-  constructor; cbn.
+  constructor; cbn [hm_new hm_words hm_handlers hm_r2s hm_orphans sids map].
   - apply wf_sid_new.
-  - intros sid. rewrite used_sid_new. split; [discriminate|tauto].
+  - intros sid. rewrite used_sid_new. split; [discriminate|intros []].
   - constructor.
+  - intros sid rid tok H. now rewrite mget_mempty in H.
+  - intros rid sid H. now rewrite mget_mempty in H.
   - discriminate.
-  - discriminate.
-  - discriminate.
-  - tauto.
+  - intros sid rid [].
 Qed.
 
 Lemma InvH_alloc m p rid : InvH m p -> ~ In rid (rids p) ->
@@ -391,8 +408,8 @@ Proof.
     destruct (bitmap_alloc _ _ _ A Ha) as (Hlt & Hfree & Hleast & Hset & Hwf').
     assert (Hnin : ~ In sid (sids p)).
     { intros Hin. apply B in Hin. congruence. }
-    assert (Hnone : aget sid (hm_handlers m) = None).
-    { destruct (aget sid (hm_handlers m)) as [[r t]|] eqn:Hg; [|reflexivity].
+    assert (Hnone : mget sid (hm_handlers m) = None).
+    { destruct (mget sid (hm_handlers m)) as [[r t]|] eqn:Hg; [|reflexivity].
       exfalso. apply Hnin. destruct (D _ _ _ Hg) as (_ & Hin & _). eapply In_sids; eauto. }
     rewrite Hnone. split; [reflexivity|]. split; [assumption|]. split; [assumption|].
     split. { intros j Hj. apply B. now apply Hleast. }
@@ -404,24 +421,24 @@ Proof.
       destruct H as [H|H]; [congruence|assumption].
     + constructor; assumption.
     + intros s r t H. destruct (N.eq_dec s sid) as [->|Hne].
-      * rewrite aget_aput_same in H. inversion H; subst. repeat split.
+      * rewrite mget_mput_same in H. inversion H; subst. repeat split.
         -- now left.
-        -- apply aget_aput_same.
+        -- apply mget_mput_same.
         -- destruct (smem sid (hm_orphans m)) eqn:Ho; [|reflexivity]. exfalso. now apply Hnin, F.
-      * rewrite aget_aput_other in H by assumption.
+      * rewrite mget_mput_other in H by assumption.
         destruct (D _ _ _ H) as (H1 & H2 & H3 & H4). repeat split; try assumption.
         -- now right.
-        -- rewrite aget_aput_other; [assumption|]. intros ->. apply Hfresh. eapply In_rids; eauto.
+        -- rewrite mget_mput_other; [assumption|]. intros ->. apply Hfresh. eapply In_rids; eauto.
     + intros r s H. destruct (N.eq_dec r rid) as [->|Hne].
-      * rewrite aget_aput_same in H. inversion H; subst. apply aget_aput_same.
-      * rewrite aget_aput_other in H by assumption. specialize (E _ _ H).
-        rewrite aget_aput_other; [assumption|]. intros ->. congruence.
+      * rewrite mget_mput_same in H. inversion H; subst. apply mget_mput_same.
+      * rewrite mget_mput_other in H by assumption. specialize (E _ _ H).
+        rewrite mget_mput_other; [assumption|]. intros ->. congruence.
     + intros s H. right. now apply F.
     + intros s r [H|H].
-      * inversion H; subst. left. apply aget_aput_same.
+      * inversion H; subst. left. apply mget_mput_same.
       * assert (s <> sid). { intros ->. apply Hnin. eapply In_sids; eauto. }
         destruct (G _ _ H) as [H1|H1]; [left|right; assumption].
-        now rewrite aget_aput_other.
+        now rewrite mget_mput_other.
   - right. split; [reflexivity|]. intros j Hj. apply B.
     now apply (proj1 (bitmap_full _ A) Ha).
 Qed.
@@ -429,29 +446,29 @@ Qed.
 Lemma InvH_orphan m p rid : InvH m p -> InvH (hm_orphan m rid) p /\
   (forall sid, smem sid (hm_orphans (hm_orphan m rid)) = true ->
                smem sid (hm_orphans m) = true \/ In (sid, rid) p) /\
-  (aget rid (hm_r2s m) = None -> hm_orphan m rid = m).
+  (mget rid (hm_r2s m) = None -> hm_orphan m rid = m).
 Proof.
   intros Hinv. pose proof Hinv as [A B C D E F G]. unfold hm_orphan.
-  destruct (aget rid (hm_r2s m)) as [sid|] eqn:Hr.
+  destruct (mget rid (hm_r2s m)) as [sid|] eqn:Hr.
   2:{ split; [assumption|]. split; [now left|reflexivity]. }
   pose proof (E _ _ Hr) as Hh. destruct (D _ _ _ Hh) as (_ & Hin & _ & Hno).
   split; [|split; [|discriminate]].
   - constructor; cbn [hm_words hm_handlers hm_r2s hm_orphans]; try assumption.
-    + intros s r t H. assert (s <> sid) by (intros ->; now rewrite aget_arem_same in H).
-      rewrite aget_arem_other in H by assumption.
+    + intros s r t H. assert (s <> sid) by (intros ->; now rewrite mget_mrem_same in H).
+      rewrite mget_mrem_other in H by assumption.
       destruct (D _ _ _ H) as (H1 & H2 & H3 & H4). repeat split; try assumption.
-      * rewrite aget_arem_other; [assumption|]. intros ->. congruence.
+      * rewrite mget_mrem_other; [assumption|]. intros ->. congruence.
       * rewrite smem_sadd, H4. destruct (N.eqb_spec s sid); [contradiction|reflexivity].
-    + intros r s H. assert (r <> rid) by (intros ->; now rewrite aget_arem_same in H).
-      rewrite aget_arem_other in H by assumption. specialize (E _ _ H).
-      rewrite aget_arem_other; [assumption|]. intros ->. congruence.
+    + intros r s H. assert (r <> rid) by (intros ->; now rewrite mget_mrem_same in H).
+      rewrite mget_mrem_other in H by assumption. specialize (E _ _ H).
+      rewrite mget_mrem_other; [assumption|]. intros ->. congruence.
     + intros s H. rewrite smem_sadd in H. destruct (N.eqb_spec s sid).
       * subst. eapply In_sids; eauto.
       * now apply F.
     + intros s r H. destruct (N.eq_dec s sid) as [->|Hne].
       * right. rewrite smem_sadd, N.eqb_refl. reflexivity.
       * destruct (G _ _ H) as [H1|H1].
-        -- left. now rewrite aget_arem_other.
+        -- left. now rewrite mget_mrem_other.
         -- right. rewrite smem_sadd, H1. apply orb_true_r.
   - cbn [hm_orphans]. intros s H. rewrite smem_sadd in H. destruct (N.eqb_spec s sid).
     + subst. now right.
@@ -461,7 +478,7 @@ Qed.
 Lemma InvH_lookup m sid rid p : InvH m ((sid, rid) :: p) ->
   InvH (fst (hm_lookup m sid)) p /\
   ((smem sid (hm_orphans m) = true /\ snd (hm_lookup m sid) = LOrphaned) \/
-   (smem sid (hm_orphans m) = false /\ aget sid (hm_handlers m) = Some (rid, rid) /\
+   (smem sid (hm_orphans m) = false /\ mget sid (hm_handlers m) = Some (rid, rid) /\
     snd (hm_lookup m sid) = LHandler rid rid)) /\
   (forall s0, smem s0 (hm_orphans (fst (hm_lookup m sid))) = true ->
               smem s0 (hm_orphans m) = true).
@@ -492,18 +509,18 @@ Proof.
     2:{ cbn [hm_orphans]. auto. }
     destruct (D _ _ _ Hh) as (_ & _ & Hr & _).
     constructor; cbn [hm_words hm_handlers hm_r2s hm_orphans]; try assumption.
-    + intros s r t H. assert (s <> sid) by (intros ->; now rewrite aget_arem_same in H).
-      rewrite aget_arem_other in H by assumption.
+    + intros s r t H. assert (s <> sid) by (intros ->; now rewrite mget_mrem_same in H).
+      rewrite mget_mrem_other in H by assumption.
       destruct (D _ _ _ H) as (H1 & H2 & H3 & H4). repeat split; try assumption.
       * destruct H2 as [H2|H2]; [|assumption]. inversion H2; subst. congruence.
-      * rewrite aget_arem_other; [assumption|]. intros ->. congruence.
-    + intros r s H. assert (r <> rid) by (intros ->; now rewrite aget_arem_same in H).
-      rewrite aget_arem_other in H by assumption. specialize (E _ _ H).
-      rewrite aget_arem_other; [assumption|]. intros ->. congruence.
+      * rewrite mget_mrem_other; [assumption|]. intros ->. congruence.
+    + intros r s H. assert (r <> rid) by (intros ->; now rewrite mget_mrem_same in H).
+      rewrite mget_mrem_other in H by assumption. specialize (E _ _ H).
+      rewrite mget_mrem_other; [assumption|]. intros ->. congruence.
     + intros s H. destruct (F _ H) as [->|]; [congruence|assumption].
     + intros s r H. assert (s <> sid) by (intros ->; apply Hnin; eapply In_sids; eauto).
       destruct (G s r (or_intror H)) as [H1|H1]; [left|now right].
-      now rewrite aget_arem_other.
+      now rewrite mget_mrem_other.
 Qed.
 (* ---------- the connection ---------- *)
 Record InvC (m : hmap) (p : list (N * N)) (q : list N) (nx : N) (nt : list N)
@@ -785,11 +802,11 @@ Theorem inv_statement s : reachable s ->
   wf_words (hm_words m) /\
   (forall sid, used (hm_words m) sid = true <-> In sid (sids p)) /\
   (forall sid, In sid (sids p) <->
-     ((exists h, aget sid (hm_handlers m) = Some h) \/ smem sid (hm_orphans m) = true)) /\
-  (forall sid h, aget sid (hm_handlers m) = Some h -> smem sid (hm_orphans m) = false) /\
-  (forall sid rid tok, aget sid (hm_handlers m) = Some (rid, tok) ->
-     tok = rid /\ aget rid (hm_r2s m) = Some sid /\ In (sid, rid) p) /\
-  (forall rid sid, aget rid (hm_r2s m) = Some sid -> aget sid (hm_handlers m) = Some (rid, rid)) /\
+     ((exists h, mget sid (hm_handlers m) = Some h) \/ smem sid (hm_orphans m) = true)) /\
+  (forall sid h, mget sid (hm_handlers m) = Some h -> smem sid (hm_orphans m) = false) /\
+  (forall sid rid tok, mget sid (hm_handlers m) = Some (rid, tok) ->
+     tok = rid /\ mget rid (hm_r2s m) = Some sid /\ In (sid, rid) p) /\
+  (forall rid sid, mget rid (hm_r2s m) = Some sid -> mget sid (hm_handlers m) = Some (rid, rid)) /\
   NoDup (sids p) /\ NoDup (rids p ++ c_queue s) /\
   (forall rid, In rid (rids p ++ c_queue s) -> rid < c_next_rid s).
 Proof.
@@ -813,7 +830,7 @@ Proof.
   intros Hr H. destruct (Inv_reachable _ Hr) as [[A B C D E F G] _].
   unfold hm_allocate in H. destruct (sid_alloc (hm_words (c_hm s))) as [[sid' ws']|] eqn:Ha.
   2:{ inv_some H. }
-  assert (sid' = sid) as -> by (destruct (aget sid' (hm_handlers (c_hm s))); now inv_some H).
+  assert (sid' = sid) as -> by (destruct (mget sid' (hm_handlers (c_hm s))); now inv_some H).
   destruct (bitmap_alloc _ _ _ A Ha) as (Hlt & Hfree & _).
   assert (Hn : ~ In sid (sids (pending s))). { intros Hin. apply B in Hin. congruence. }
   repeat split; try assumption.
@@ -848,7 +865,7 @@ Proof.
   intros rid ans Hin. destruct (F _ _ Hin) as [H|H]; [now apply E|discriminate].
 Qed.
 
-Lemma r2s_pending s rid sid : Inv s -> aget rid (hm_r2s (c_hm s)) = Some sid -> In rid (rids (pending s)).
+Lemma r2s_pending s rid sid : Inv s -> mget rid (hm_r2s (c_hm s)) = Some sid -> In rid (rids (pending s)).
 Proof.
   intros [HH _] H. apply (i_r _ _ HH) in H. destruct (i_h _ _ HH _ _ _ H) as (_ & Hin & _).
   eapply In_rids; eauto.
@@ -860,7 +877,7 @@ Theorem late_orphan s rid : reachable s ->
 Proof.
   intros Hr Hc. pose proof (Inv_reachable _ Hr) as Hi.
   destruct (InvH_orphan _ _ rid (proj1 Hi)) as (_ & _ & Hnone). apply Hnone.
-  destruct (aget rid (hm_r2s (c_hm s))) as [sid|] eqn:Hg; [|reflexivity]. exfalso.
+  destruct (mget rid (hm_r2s (c_hm s))) as [sid|] eqn:Hg; [|reflexivity]. exfalso.
   pose proof (r2s_pending _ _ _ Hi Hg) as Hin. destruct Hi as [_ [A B C D E F G I]].
   destruct Hc as [Hc|[Hc|Hc]].
   - apply (D _ Hc). apply in_or_app. now left.
@@ -981,4 +998,368 @@ Proof.
   exists s. split; [eexists; eassumption|]. split; [assumption|].
   intros j Hj. unfold pending, sids. rewrite map_app. apply in_or_app. left.
   apply Hw. now rewrite N2Nat.id.
+Qed.
+
+
+(* ---------- the handler map alone refines the specification checker [sm_check] ---------- *)
+Section AssocMore.
+  Context {V : Type}.
+  Implicit Types m : list (N * V).
+  Lemma aget_In_keys k m : In k (map fst m) <-> aget k m <> None.
+  Proof.
+    induction m as [|[k' v] r IH]; cbn [aget map fst In]; [tauto|].
+    destruct (N.eqb_spec k' k); [split; [discriminate|auto]|].
+    rewrite <- IH. split; [intros [?|?]; [congruence|assumption]|auto].
+  Qed.
+  Lemma arem_absent k m : aget k m = None -> arem k m = m.
+  Proof.
+    induction m as [|[k' v] r IH]; cbn [aget arem]; [reflexivity|].
+    destruct (N.eqb_spec k' k); [discriminate|]. intros H. now rewrite IH.
+  Qed.
+  Lemma keys_arem k k' m : In k' (map fst (arem k m)) <-> k' <> k /\ In k' (map fst m).
+  Proof.
+    rewrite !aget_In_keys. destruct (N.eq_dec k' k) as [->|Hne].
+    - rewrite aget_arem_same. tauto.
+    - rewrite aget_arem_other by assumption. tauto.
+  Qed.
+  Lemma NoDup_keys_arem k m : NoDup (map fst m) -> NoDup (map fst (arem k m)).
+  Proof.
+    induction m as [|[k' v] r IH]; cbn [arem map fst]; [auto|].
+    intros H. inversion H; subst. destruct (N.eqb_spec k' k); [auto|].
+    cbn [map fst]. constructor; [|auto]. rewrite keys_arem. tauto.
+  Qed.
+End AssocMore.
+
+Lemma melements_spec {V} (m : nmap V) k v : In (k, v) (melements m) <-> mget k m = Some v.
+Proof.
+  unfold melements, mget, mkey. rewrite in_map_iff. split.
+  - intros ([p v'] & E & Hin). cbn [fst snd] in E. inversion E; subst.
+    apply PositiveMap.elements_complete in Hin.
+    assert (N.succ_pos (Pos.pred_N p) = p) as ->; [|assumption].
+    assert (E2 : N.pos (N.succ_pos (Pos.pred_N p)) = N.pos p)
+      by (rewrite N.succ_pos_spec; apply N.succ_pos_pred).
+    injection E2 as E2. exact E2.
+  - intros H. apply PositiveMap.elements_correct in H.
+    exists (N.succ_pos k, v). split; [|assumption]. cbn [fst snd]. now rewrite N.pos_pred_succ.
+Qed.
+
+Definition mark_fun (rid : N) (e : N * (N * bool)) : N * (N * bool) :=
+  let '(r, (t, o)) := e in if r =? rid then (r, (t, true)) else e.
+Lemma aget_mark rid sid st : aget sid (mark_orphan rid st) = option_map (mark_fun rid) (aget sid st).
+Proof.
+  induction st as [|[s [r [t o]]] rest IH]; cbn [mark_orphan map aget option_map]; [reflexivity|].
+  fold (mark_orphan rid rest).
+  destruct (N.eqb_spec r rid); cbn [aget]; destruct (N.eqb_spec s sid); try assumption;
+    cbn [option_map mark_fun]; [subst; now rewrite N.eqb_refl|].
+  destruct (N.eqb_spec r rid); [contradiction|reflexivity].
+Qed.
+Lemma keys_mark rid st : map fst (mark_orphan rid st) = map fst st.
+Proof.
+  induction st as [|[s [r [t o]]] rest IH]; cbn [mark_orphan map fst]; [reflexivity|].
+  fold (mark_orphan rid rest). rewrite IH. now destruct (r =? rid).
+Qed.
+
+Record Rel (m : hmap) (st : spec_state) : Prop := {
+  r_wf : wf_words (hm_words m);
+  r_nd : NoDup (map fst st);
+  r_used : forall sid, used (hm_words m) sid = true <-> In sid (map fst st);
+  r_h : forall sid rid tok, mget sid (hm_handlers m) = Some (rid, tok) <->
+                            aget sid st = Some (rid, (tok, false));
+  r_o : forall sid, smem sid (hm_orphans m) = true <->
+                    exists rid tok, aget sid st = Some (rid, (tok, true));
+  r_r : forall rid sid, mget rid (hm_r2s m) = Some sid <->
+                        exists tok, aget sid st = Some (rid, (tok, false));
+  r_u : forall sid sid' rid t t' o o', aget sid st = Some (rid, (t, o)) ->
+        aget sid' st = Some (rid, (t', o')) -> sid = sid'
+}.
+
+Definition st_rids (st : spec_state) : list N := map (fun e => fst (snd e)) st.
+Lemma aget_st_rids sid rid t o (st : spec_state) : aget sid st = Some (rid, (t, o)) -> In rid (st_rids st).
+Proof.
+  intros H. apply aget_In in H. unfold st_rids.
+  change rid with ((fun e : N * (N * (N * bool)) => fst (snd e)) (sid, (rid, (t, o)))). now apply in_map.
+Qed.
+
+Lemma Rel_new : Rel hm_new [].
+Proof.
+  constructor; cbn [hm_new hm_words hm_handlers hm_r2s hm_orphans map aget].
+  - apply wf_sid_new.
+  - constructor.
+  - intros sid. rewrite used_sid_new. split; [discriminate|intros []].
+  - intros. rewrite mget_mempty. split; discriminate.
+  - intros. split; [discriminate|intros (? & ? & ?); discriminate].
+  - intros. rewrite mget_mempty. split; [discriminate|intros (? & ?); discriminate].
+  - discriminate.
+Qed.
+
+Lemma keys_full_length (l : list N) : NoDup l -> (forall j, In j l <-> j < nids) ->
+  N.of_nat (List.length l) = nids.
+Proof.
+  intros Hnd H.
+  assert (Hp : Permutation l (nrange 0 (N.to_nat nids))).
+  { apply NoDup_Permutation; [assumption| |].
+    - clear. generalize 0 as lo. induction (N.to_nat nids) as [|k IH]; intros lo; cbn [nrange]; constructor.
+      + rewrite nrange_In. lia.
+      + apply IH.
+    - intros j. rewrite H, nrange_In, N2Nat.id. lia. }
+  rewrite (Permutation_length Hp), nrange_length. apply N2Nat.id.
+Qed.
+Lemma st_rids_arem sid (st : spec_state) x : In x (st_rids (arem sid st)) -> In x (st_rids st).
+Proof.
+  unfold st_rids. induction st as [|[s e] r IH]; cbn [arem map]; [auto|].
+  destruct (s =? sid); cbn [map In]; intuition.
+Qed.
+Lemma st_rids_mark rid st : st_rids (mark_orphan rid st) = st_rids st.
+Proof.
+  unfold st_rids. induction st as [|[s [r [t o]]] rest IH]; cbn [mark_orphan map]; [reflexivity|].
+  fold (mark_orphan rid rest). rewrite IH. now destruct (r =? rid).
+Qed.
+
+Lemma Rel_alloc m st rid tok : Rel m st -> ~ In rid (st_rids st) ->
+  exists st', sm_check_step st (OpAlloc rid tok) (RAlloc (snd (hm_allocate m rid tok)) tok) = Some st' /\
+    Rel (fst (hm_allocate m rid tok)) st' /\
+    (forall x, In x (st_rids st') -> x = rid \/ In x (st_rids st)).
+Proof.
+  intros [A ND B C D E U] Hfresh. unfold hm_allocate.
+  assert (Hfresh' : forall s t o, aget s st <> Some (rid, (t, o))).
+  { intros s t o H. apply Hfresh. eapply aget_st_rids; eauto. }
+  destruct (sid_alloc (hm_words m)) as [[sid ws']|] eqn:Ha.
+  - destruct (bitmap_alloc _ _ _ A Ha) as (Hlt & Hfree & _ & Hset & Hwf').
+    assert (Hnone : aget sid st = None).
+    { destruct (aget sid st) eqn:Hg; [|reflexivity]. exfalso.
+      assert (Hin : In sid (map fst st)) by (apply aget_In_keys; congruence).
+      apply B in Hin. congruence. }
+    assert (Hhn : mget sid (hm_handlers m) = None).
+    { destruct (mget sid (hm_handlers m)) as [[r t]|] eqn:Hg; [|reflexivity].
+      apply C in Hg. congruence. }
+    rewrite Hhn. cbn [fst snd sm_check_step].
+    apply N.ltb_lt in Hlt. rewrite Hlt, Hnone. cbn [andb].
+    eexists. split; [reflexivity|]. split.
+    + unfold aput. rewrite (arem_absent _ _ Hnone).
+      constructor; cbn [hm_words hm_handlers hm_r2s hm_orphans map fst].
+      * assumption.
+      * constructor; [|assumption]. rewrite aget_In_keys. congruence.
+      * intros j. rewrite Hset. cbn [In]. rewrite <- B.
+        destruct (N.eqb_spec j sid); cbn [orb]; split; intros H; auto.
+        destruct H as [H|H]; [congruence|assumption].
+      * intros s r t. cbn [aget]. destruct (N.eqb_spec sid s).
+        -- subst. rewrite mget_mput_same. split; intros H; inversion H; reflexivity.
+        -- rewrite mget_mput_other by congruence. apply C.
+      * intros s. rewrite D. cbn [aget]. destruct (N.eqb_spec sid s); [|reflexivity].
+        subst. rewrite Hnone. split; intros (? & ? & ?); discriminate.
+      * intros r s. cbn [aget]. destruct (N.eq_dec r rid) as [->|Hne].
+        -- rewrite mget_mput_same. destruct (N.eqb_spec sid s).
+           ++ subst. split; [eauto|reflexivity].
+           ++ split; [intros H; inversion H; congruence|intros (t & H); exfalso; eapply Hfresh'; eauto].
+        -- rewrite mget_mput_other by assumption. rewrite E. destruct (N.eqb_spec sid s); [|reflexivity].
+           subst. rewrite Hnone. split; intros (t & H); inversion H; congruence.
+      * intros s s' r t t' o o'. cbn [aget].
+        destruct (N.eqb_spec sid s), (N.eqb_spec sid s'); intros H1 H2; subst; try reflexivity.
+        -- inversion H1; subst. exfalso; eapply Hfresh'; eauto.
+        -- inversion H2; subst. exfalso; eapply Hfresh'; eauto.
+        -- eapply U; eauto.
+    + unfold aput. rewrite (arem_absent _ _ Hnone). cbn [st_rids map fst snd In]. intuition.
+  - cbn [fst snd sm_check_step]. rewrite N.eqb_refl. cbn [andb].
+    assert (Hlen : N.of_nat (List.length st) = nids).
+    { rewrite <- (map_length fst). apply keys_full_length; [assumption|].
+      intros j. rewrite <- B. split.
+      - apply used_lt. assumption.
+      - now apply (proj1 (bitmap_full _ A) Ha). }
+    rewrite Hlen, N.eqb_refl. eexists. split; [reflexivity|]. split; [constructor; assumption|auto].
+Qed.
+
+Lemma Rel_orphan m st rid : Rel m st -> Rel (hm_orphan m rid) (mark_orphan rid st).
+Proof.
+  intros [A ND B C D E U]. unfold hm_orphan.
+  destruct (mget rid (hm_r2s m)) as [sid|] eqn:Hr.
+  - pose proof (proj1 (E _ _) Hr) as (tok & Hst).
+    pose proof (proj2 (C _ _ _) Hst) as Hh.
+    constructor; cbn [hm_words hm_handlers hm_r2s hm_orphans]; try rewrite keys_mark; try assumption.
+    + intros s r t. rewrite aget_mark. destruct (N.eq_dec s sid) as [->|Hne].
+      * rewrite mget_mrem_same, Hst. cbn [option_map mark_fun]. rewrite N.eqb_refl.
+        split; discriminate.
+      * rewrite mget_mrem_other by assumption. rewrite C.
+        destruct (aget s st) as [[r' [t' o']]|] eqn:Hs; cbn [option_map mark_fun]; [|tauto].
+        destruct (N.eqb_spec r' rid).
+        -- subst. exfalso. apply Hne. eapply U; eauto.
+        -- tauto.
+    + intros s. rewrite smem_sadd, aget_mark. destruct (N.eqb_spec s sid).
+      * subst. rewrite Hst. cbn [option_map mark_fun orb]. rewrite N.eqb_refl. split; eauto.
+      * cbn [orb]. rewrite D.
+        destruct (aget s st) as [[r' [t' o']]|] eqn:Hs; cbn [option_map mark_fun].
+        -- destruct (N.eqb_spec r' rid); [subst; exfalso; apply n; eapply U; eauto|reflexivity].
+        -- reflexivity.
+    + intros r s. setoid_rewrite aget_mark. destruct (N.eq_dec r rid) as [->|Hne].
+      * rewrite mget_mrem_same. split; [discriminate|]. intros (t & H).
+        destruct (aget s st) as [[r' [t' o']]|]; cbn [option_map mark_fun] in H; [|discriminate].
+        destruct (N.eqb_spec r' rid); inversion H; subst. contradiction.
+      * rewrite mget_mrem_other by assumption. rewrite E. split; intros (t & H); exists t.
+        -- rewrite H. cbn [option_map mark_fun]. destruct (N.eqb_spec r rid); [contradiction|reflexivity].
+        -- destruct (aget s st) as [[r' [t' o']]|]; cbn [option_map mark_fun] in H; [|discriminate].
+           destruct (N.eqb_spec r' rid); inversion H; subst; reflexivity.
+    + intros s s' r t t' o o'. rewrite !aget_mark. intros H1 H2.
+      destruct (aget s st) as [[r1 [t1 o1]]|] eqn:Hs1; cbn [option_map mark_fun] in H1; [|discriminate].
+      destruct (aget s' st) as [[r2 [t2 o2]]|] eqn:Hs2; cbn [option_map mark_fun] in H2; [|discriminate].
+      assert (r1 = r) by (destruct (r1 =? rid); now inversion H1).
+      assert (r2 = r) by (destruct (r2 =? rid); now inversion H2).
+      subst. eapply U; eauto.
+  - assert (Hno : forall s t, aget s st <> Some (rid, (t, false))).
+    { intros s t H. assert (Hx : mget rid (hm_r2s m) = Some s) by (apply E; eauto). congruence. }
+    assert (Hsame : forall s, aget s (mark_orphan rid st) = aget s st).
+    { intros s. rewrite aget_mark. destruct (aget s st) as [[r [t o]]|] eqn:Hs; cbn [option_map mark_fun]; [|reflexivity].
+      destruct (N.eqb_spec r rid); [|reflexivity]. subst. destruct o; [reflexivity|].
+      exfalso. eapply Hno; eauto. }
+    constructor; try rewrite keys_mark; try assumption.
+    + intros. rewrite Hsame. apply C.
+    + intros. setoid_rewrite Hsame. apply D.
+    + intros. setoid_rewrite Hsame. apply E.
+    + intros s s' r t t' o o'. rewrite !Hsame. apply U.
+Qed.
+
+Lemma Rel_lookup m st sid : Rel m st -> sid < nids ->
+  exists st', sm_check_step st (OpLookup sid) (RLookup (snd (hm_lookup m sid))) = Some st' /\
+    Rel (fst (hm_lookup m sid)) st' /\ (forall x, In x (st_rids st') -> In x (st_rids st)).
+Proof.
+  intros [A ND B C D E U] Hlt.
+  destruct (bitmap_free _ _ A Hlt) as [Hfree Hwf'].
+  assert (Hused' : forall j, used (sid_free (hm_words m) sid) j = true <-> In j (map fst (arem sid st))).
+  { intros j. rewrite Hfree, keys_arem, <- B. destruct (N.eqb_spec j sid); cbn [negb andb].
+    - split; [discriminate|tauto].
+    - tauto. }
+  unfold hm_lookup. cbn [sm_check_step].
+  destruct (aget sid st) as [[rid [tok o]]|] eqn:Hst.
+  - destruct o.
+    + assert (Ho : smem sid (hm_orphans m) = true) by (apply D; eauto).
+      rewrite Ho. cbn [fst snd]. eexists. split; [reflexivity|]. split; [|apply st_rids_arem].
+      constructor; cbn [hm_words hm_handlers hm_r2s hm_orphans]; try assumption.
+      * now apply NoDup_keys_arem.
+      * intros s r t. rewrite C. destruct (N.eq_dec s sid) as [->|Hne].
+        -- rewrite aget_arem_same, Hst. split; discriminate.
+        -- now rewrite aget_arem_other.
+      * intros s. rewrite smem_srem. destruct (N.eqb_spec s sid); cbn [negb andb].
+        -- subst. rewrite aget_arem_same. split; [discriminate|intros (? & ? & ?); discriminate].
+        -- rewrite D. now rewrite aget_arem_other.
+      * intros r s. rewrite E. destruct (N.eq_dec s sid) as [->|Hne].
+        -- rewrite aget_arem_same, Hst. split; intros (? & ?); discriminate.
+        -- now rewrite aget_arem_other.
+      * intros s s' r t t' o o' H1 H2.
+        assert (s <> sid) by (intros ->; now rewrite aget_arem_same in H1).
+        assert (s' <> sid) by (intros ->; now rewrite aget_arem_same in H2).
+        rewrite aget_arem_other in H1, H2 by assumption. eapply U; eauto.
+    + assert (Ho : smem sid (hm_orphans m) = false).
+      { destruct (smem sid (hm_orphans m)) eqn:Ho; [|reflexivity].
+        apply D in Ho as (? & ? & Ho). congruence. }
+      rewrite Ho. rewrite (proj2 (C _ _ _) Hst). cbn [fst snd]. rewrite !N.eqb_refl. cbn [andb].
+      eexists. split; [reflexivity|]. split; [|apply st_rids_arem].
+      constructor; cbn [hm_words hm_handlers hm_r2s hm_orphans]; try assumption.
+      * now apply NoDup_keys_arem.
+      * intros s r t. destruct (N.eq_dec s sid) as [->|Hne].
+        -- rewrite mget_mrem_same, aget_arem_same. split; discriminate.
+        -- rewrite mget_mrem_other, aget_arem_other by assumption. apply C.
+      * intros s. rewrite D. destruct (N.eq_dec s sid) as [->|Hne].
+        -- rewrite aget_arem_same, Hst. split; intros (? & ? & ?); discriminate.
+        -- now rewrite aget_arem_other.
+      * intros r s. destruct (N.eq_dec r rid) as [->|Hne].
+        -- rewrite mget_mrem_same. split; [discriminate|]. intros (t & H).
+           assert (s <> sid) by (intros ->; now rewrite aget_arem_same in H).
+           rewrite aget_arem_other in H by assumption. exfalso. apply H0. eapply U; eauto.
+        -- rewrite mget_mrem_other by assumption. rewrite E. destruct (N.eq_dec s sid) as [->|Hne'].
+           ++ rewrite aget_arem_same, Hst. split; intros (? & H); inversion H; congruence.
+           ++ now rewrite aget_arem_other.
+      * intros s s' r t t' o o' H1 H2.
+        assert (s <> sid) by (intros ->; now rewrite aget_arem_same in H1).
+        assert (s' <> sid) by (intros ->; now rewrite aget_arem_same in H2).
+        rewrite aget_arem_other in H1, H2 by assumption. eapply U; eauto.
+  - assert (Ho : smem sid (hm_orphans m) = false).
+    { destruct (smem sid (hm_orphans m)) eqn:Ho; [|reflexivity].
+      apply D in Ho as (? & ? & Ho). congruence. }
+    assert (Hh : mget sid (hm_handlers m) = None).
+    { destruct (mget sid (hm_handlers m)) as [[r t]|] eqn:Hg; [|reflexivity]. apply C in Hg. congruence. }
+    rewrite Ho, Hh. cbn [fst snd]. eexists. split; [reflexivity|]. split; [|auto].
+    constructor; cbn [hm_words hm_handlers hm_r2s hm_orphans]; try assumption.
+    intros j. rewrite Hused', (arem_absent _ _ Hst). tauto.
+Qed.
+
+Lemma Rel_probe m st tok : Rel m st ->
+  sm_check_step st (OpProbe tok) (RProbe (hm_holds m tok)) = Some st.
+Proof.
+  intros [A ND B C D E U]. cbn [sm_check_step].
+  assert (Heq : hm_holds m tok =
+    existsb (fun e : N * (N * (N * bool)) => (fst (snd (snd e)) =? tok) && negb (snd (snd (snd e)))) st).
+  { apply Bool.eq_true_iff_eq. unfold hm_holds. rewrite !existsb_exists. split.
+    - intros ([s [r t]] & Hin & Ht). cbn [fst snd] in Ht. apply melements_spec in Hin. apply C in Hin.
+      exists (s, (r, (t, false))). split; [now apply aget_In|]. cbn [fst snd negb]. now rewrite Ht.
+    - intros ([s [r [t o]]] & Hin & Ht). cbn [fst snd] in Ht. apply andb_true_iff in Ht as [Ht Ho].
+      destruct o; [discriminate|]. apply (In_aget_nodup _ _ _ ND) in Hin. apply C in Hin.
+      exists (s, (r, t)). split; [now apply melements_spec|assumption]. }
+  rewrite <- Heq. now rewrite Bool.eqb_reflx.
+Qed.
+Lemma nodupb_NoDup l : nodupb l = true -> NoDup l.
+Proof.
+  induction l as [|x r IH]; cbn [nodupb]; [constructor|].
+  intros H. apply andb_true_iff in H as [H1 H2]. constructor; [|auto].
+  intros Hin. apply smem_In in Hin. now rewrite Hin in H1.
+Qed.
+
+Lemma sm_run_ok ops : forall m st, Rel m st -> Forall op_in_range ops ->
+  NoDup (alloc_rids ops) -> (forall x, In x (st_rids st) -> ~ In x (alloc_rids ops)) ->
+  sm_check_from st ops (snd (hm_run m ops)) = true.
+Proof.
+  induction ops as [|o r IH]; intros m st HR Hrange Hnd Hdis; cbn [hm_run]; [reflexivity|].
+  inversion Hrange as [|? ? Ho Hr]; subst.
+  destruct o as [rid tok|rid|sid|tok]; cbn [hm_step alloc_rids flat_map app] in *.
+  - fold (alloc_rids r) in *. inversion Hnd as [|? ? Hnin Hnd']; subst.
+    assert (Hfresh : ~ In rid (st_rids st)) by (intros Hin; apply (Hdis _ Hin); now left).
+    destruct (Rel_alloc m st rid tok HR Hfresh) as (st' & Hc & HR' & Hsub).
+    destruct (hm_allocate m rid tok) as [m1 res]. cbn [fst snd] in *.
+    specialize (IH m1 st' HR' Hr Hnd').
+    destruct (hm_run m1 r) as [m2 xs]. cbn [snd sm_check_from] in *. rewrite Hc. apply IH.
+    intros x Hx Hin. destruct (Hsub _ Hx) as [->|Hx']; [contradiction|].
+    apply (Hdis _ Hx'). now right.
+  - fold (alloc_rids r) in *.
+    specialize (IH (hm_orphan m rid) (mark_orphan rid st) (Rel_orphan _ _ rid HR) Hr Hnd).
+    destruct (hm_run (hm_orphan m rid) r) as [m2 xs]. cbn [snd sm_check_from sm_check_step] in *.
+    apply IH. now rewrite st_rids_mark.
+  - fold (alloc_rids r) in *. cbn [op_in_range] in Ho.
+    destruct (Rel_lookup m st sid HR Ho) as (st' & Hc & HR' & Hsub).
+    destruct (hm_lookup m sid) as [m1 res]. cbn [fst snd] in *.
+    specialize (IH m1 st' HR' Hr Hnd).
+    destruct (hm_run m1 r) as [m2 xs]. cbn [snd sm_check_from] in *. rewrite Hc. apply IH.
+    intros x Hx. apply Hdis. now apply Hsub.
+  - fold (alloc_rids r) in *. specialize (IH m st HR Hr Hnd Hdis).
+    destruct (hm_run m r) as [m2 xs]. cbn [snd sm_check_from] in *.
+    now rewrite (Rel_probe m st tok HR).
+Qed.
+
+Theorem sm_spec ops : sm_applicable ops = true -> Forall op_in_range ops ->
+  sm_check ops (snd (hm_run hm_new ops)) = true.
+Proof.
+  intros Ha Hr. unfold sm_applicable in Ha. apply andb_true_iff in Ha as [Ha _].
+  apply sm_run_ok; [apply Rel_new|assumption|now apply nodupb_NoDup|intros x []].
+Qed.
+
+(* the checker rejects what the property forbids: a reused id, a response handed to another
+   handler, a spurious allocation failure *)
+Lemma sm_check_rejects :
+  sm_check [OpAlloc 1 10; OpAlloc 2 11] [RAlloc (AllocOk 0) 10; RAlloc (AllocOk 0) 11] = false /\
+  sm_check [OpAlloc 1 10; OpAlloc 2 11; OpLookup 1]
+           [RAlloc (AllocOk 0) 10; RAlloc (AllocOk 1) 11; RLookup (LHandler 1 10)] = false /\
+  sm_check [OpAlloc 1 10; OpOrphan 1; OpLookup 0]
+           [RAlloc (AllocOk 0) 10; RUnit; RLookup (LHandler 1 10)] = false /\
+  sm_check [OpAlloc 1 10] [RAlloc AllocFull 10] = false.
+Proof. repeat split; vm_compute; reflexivity. Qed.
+
+(* a frame on an id that is not pending (unsolicited) reaches nobody: lookup says Missing, which
+   makes the reader return UnexpectedStreamId; handlers, request ids and orphanage are untouched *)
+Theorem unsolicited s sid : reachable s -> ~ In sid (sids (pending s)) ->
+  snd (hm_lookup (c_hm s) sid) = LMissing /\
+  hm_handlers (fst (hm_lookup (c_hm s) sid)) = hm_handlers (c_hm s) /\
+  hm_r2s (fst (hm_lookup (c_hm s) sid)) = hm_r2s (c_hm s) /\
+  hm_orphans (fst (hm_lookup (c_hm s) sid)) = hm_orphans (c_hm s).
+Proof.
+  intros Hr Hn. destruct (Inv_reachable _ Hr) as [[A B C D E F G] _]. unfold hm_lookup.
+  destruct (smem sid (hm_orphans (c_hm s))) eqn:Ho; [exfalso; now apply Hn, F|].
+  destruct (mget sid (hm_handlers (c_hm s))) as [[r t]|] eqn:Hh.
+  - exfalso. apply Hn. destruct (D _ _ _ Hh) as (_ & Hin & _). eapply In_sids; eauto.
+  - cbn [fst snd hm_handlers hm_r2s hm_orphans]. auto.
 Qed.
